@@ -88,6 +88,8 @@ type caseSpec struct {
 	tls      bool   // Dialer.TLS / Transport.TLS set: the fake broker sits behind TLS and notes what reaches its socket first
 }
 
+var errHung = errors.New("hung: the dial did not return within 2 s (its time limit was 400 ms)")
+
 func (c caseSpec) address() string {
 	if c.addr == "" {
 		return "broker1:9092"
@@ -231,6 +233,22 @@ func serve(conn net.Conn, c caseSpec, lg *connLog) {
 			lg.addEnv("IOERR")
 			conn.Write([]byte{0xff, 0xff, 0xff, 0xff})
 			return false
+		case "silent":
+			// the broker stops answering and keeps the connection open: the pending read of the client can only end by
+			// the dial's own time limit.  Watch for 2.5 s whether the client closes its end.
+			lg.addEnv("IOERR")
+			conn.SetReadDeadline(time.Now().Add(2500 * time.Millisecond))
+			buf := make([]byte, 4096)
+			for {
+				if _, err := conn.Read(buf); err != nil {
+					var ne net.Error
+					if errors.As(err, &ne) && ne.Timeout() {
+						idleExit = true // the client never closed: `closed` stays false
+					}
+					break
+				}
+			}
+			return true
 		case "badid":
 			lg.addEnv("IOERR")
 			b := append([]byte(nil), good...)
@@ -433,6 +451,9 @@ func errClass(err error) string {
 	if strings.HasPrefix(err.Error(), "panic: ") {
 		return "panic"
 	}
+	if errors.Is(err, errHung) {
+		return "hung"
+	}
 	var ke kafka.Error
 	if errors.As(err, &ke) {
 		return fmt.Sprintf("err:kafka:%d", int(ke))
@@ -492,6 +513,9 @@ func runCase(c caseSpec) (res caseResult, skip string) {
 
 	if c.path == "dialer" {
 		d := &kafka.Dialer{DialFunc: dial, SASLMechanism: mech, ClientID: "c18"}
+		if c.failKind == "silent" {
+			d.Timeout = 400 * time.Millisecond
+		}
 		if c.tls {
 			d.TLS = clientTLS()
 		}
@@ -504,7 +528,26 @@ func runCase(c caseSpec) (res caseResult, skip string) {
 					err = fmt.Errorf("panic: %v", p)
 				}
 			}()
-			conn, err = d.DialContext(ctx, "tcp", c.address())
+			if c.failKind != "silent" {
+				conn, err = d.DialContext(ctx, "tcp", c.address())
+				return
+			}
+			// the dial has 400 ms (Dialer.Timeout); it gets 2 s before the harness calls it hung
+			type dialRes struct {
+				conn *kafka.Conn
+				err  error
+			}
+			ch := make(chan dialRes, 1)
+			go func() {
+				cn, e := d.DialContext(ctx, "tcp", c.address())
+				ch <- dialRes{cn, e}
+			}()
+			select {
+			case r := <-ch:
+				conn, err = r.conn, r.err
+			case <-time.After(2 * time.Second):
+				err = errHung
+			}
 		}()
 		res.final = errClass(err)
 		if err == nil {
@@ -527,6 +570,12 @@ func runCase(c caseSpec) (res caseResult, skip string) {
 	}
 
 	tr := &kafka.Transport{Dial: dial, SASL: mech, MetadataTTL: 24 * time.Hour, ClientID: "c18"}
+	if c.failKind == "silent" {
+		tr.DialTimeout = 400 * time.Millisecond
+		var cancel2 context.CancelFunc
+		ctx, cancel2 = context.WithTimeout(ctx, 1200*time.Millisecond)
+		defer cancel2()
+	}
 	if c.tls {
 		tr.TLS = clientTLS()
 	}
@@ -672,6 +721,20 @@ func main() {
 			cases = append(cases, caseSpec{path: path, hs: hsChoices[0], au: hsChoices[0], mech: "plain", user: "u", pass: "p", srvUser: "u", srvPass: "p", mechFail: -1, addr: a})
 		}
 	}
+	// a broker that falls silent in the middle of the set-up and keeps the connection open: the dial must end by its
+	// own time limit (Dialer.Timeout / Transport.DialTimeout = 400 ms), with an error and the connection closed
+	for _, path := range []string{"dialer", "transport"} {
+		for _, hs := range hsChoices {
+			for _, at := range []string{"versions", "handshake", "auth1", "auth2"} {
+				m := "plain"
+				if at == "auth2" {
+					m = "scram256"
+				}
+				cases = append(cases, caseSpec{path: path, hs: hs, au: hsChoices[0], mech: m, user: "bob", pass: "pw", srvUser: "bob", srvPass: "pw",
+					mechFail: -1, failAt: at, failKind: "silent", refSrv: "xdg"})
+			}
+		}
+	}
 	// behind TLS (Dialer.TLS / Transport.TLS): the broker notes what reaches its raw socket first
 	for _, path := range []string{"dialer", "transport"} {
 		for _, hs := range hsChoices {
@@ -700,7 +763,7 @@ func main() {
 			continue
 		}
 		for i := range res.results {
-			if res.results[i] != "ok" && !res.closed[i] {
+			if res.results[i] != "ok" && !res.closed[i] && c.failKind != "silent" {
 				leaks++
 			}
 		}
